@@ -341,8 +341,10 @@ type c12Keys struct {
 	Where  string `json:"where"` // ctx | globals
 	Macro  bool   `json:"macro"` // key clashes with an exported macro instead of being malformed
 	Nested bool   `json:"nested"`
+	Shape  string `json:"shape,omitempty"`
 }
 
+// (c12Keys.Shape: "" | child | grandchild - the template that is executed stands alone or extends)
 func checkC12Keys(c any, r *Rec) error {
 	cs := c.(*c12Keys)
 	src := "before{{ x }}after"
@@ -351,7 +353,14 @@ func checkC12Keys(c any, r *Rec) error {
 		src = "{% macro clash() export %}m{% endmacro %}before{{ x }}after"
 		key = "clash"
 	}
-	set := pongo2.NewSet("c12k", &memLoader{})
+	set := pongo2.NewSet("c12k", newMemLoader(map[string]string{"/kbase.tpl": "B{% block kb %}b{% endblock %}E", "/kbase2.tpl": `{% extends "/kbase.tpl" %}`}))
+	switch cs.Shape {
+	case "child":
+		// the executed template extends another one; the macro is its own
+		src = `{% extends "/kbase.tpl" %}{% block kb %}` + src + `{% endblock %}`
+	case "grandchild":
+		src = `{% extends "/kbase2.tpl" %}{% block kb %}` + src + `{% endblock %}`
+	}
 	ctx := pongo2.Context{"x": "X"}
 	if cs.Where == "globals" && !cs.Macro {
 		set.Globals[key] = 1
@@ -389,9 +398,9 @@ func checkC12Keys(c any, r *Rec) error {
 
 var _ = register(&propSpec{
 	ID:   "C12.keys",
-	Rule: "context / globals keys that are not identifiers (empty, space, punctuation, non-ASCII, leading dash, dot, newline) or that clash with an exported macro: every entry point must return an error and render nothing. Every case is non-trivial.",
+	Rule: "context / globals keys that are not identifiers (empty, space, punctuation, non-ASCII, leading dash, dot, newline) or that clash with a macro exported by the executed template (which stands alone or extends another one): every entry point must return an error and render nothing. Every case is non-trivial.",
 	Gen: func(t *rapid.T) any {
-		return &c12Keys{Key: pick(t, "key", []string{"", " ", "a b", "a-b", "é", "a.b", "x\n", "-x", "a[0]", "{{", "日本", "a,b", "a+"}), Where: pick(t, "where", []string{"ctx", "globals"}), Macro: drawInt(t, 0, 3, "macro") == 0}
+		return &c12Keys{Key: pick(t, "key", []string{"", " ", "a b", "a-b", "é", "a.b", "x\n", "-x", "a[0]", "{{", "日本", "a,b", "a+"}), Where: pick(t, "where", []string{"ctx", "globals"}), Macro: drawInt(t, 0, 3, "macro") == 0, Shape: pick(t, "shape", []string{"", "", "child", "grandchild"})}
 	},
 	New:   func() any { return &c12Keys{} },
 	Check: checkC12Keys,
